@@ -4,7 +4,7 @@ import random
 import shutil
 
 from . import common
-from .. import crashsim, gen, runsim, scenario as scenario_module, seams
+from .. import crashsim, gen, runsim, scenario as scenario_module, seams, timesim
 from ..driver import derive_seed
 from ..monitors.clock import ShadowClock
 
@@ -13,10 +13,14 @@ LEVEL = "exploration"
 BUDGET = {"quick": {"wall": 100, "task_timeout": 400}, "thorough": {"wall": 1500, "task_timeout": 900}}
 RUNS = {"quick": 48, "thorough": 800}
 JUMPS = {"quick": 32, "thorough": 640}
+TIME_BATCHES = {"quick": 16, "thorough": 320}
+TIME_HISTORIES = {"quick": 150, "thorough": 400}
 EVENTS = {"quick": 1200, "thorough": 3000}
 JUMP_FAMILIES = ["atoms_power", "atoms_cellb", "dip_atom", "dip_in", "dip_motion", "dip_ratio", "water_pi",
                  "water_one", "hdd_one", "soft", "lj", "hard_disks", "atoms_cellv", "dip_out"]
-RULE = ("(1) shadow clock: during seeded whole runs every k-th Time addition, subtraction, comparison and "
+RULE = ("(0) timesim: seeded operation histories on a pool of Time objects (construct, from_float, add, update in "
+        "place, subtract, all six comparisons; quotients up to 2**52, remainders 0 .. nextafter(1,0), displacements "
+        "from denormals to 1e12 and +inf) against exact rationals; (1) shadow clock: during seeded whole runs every k-th Time addition, subtraction, comparison and "
         "from_float executed by the system is re-evaluated in exact rational arithmetic (normalisation, error of "
         "one rounding, monotonicity, never below the left operand, exact order, exact conversion, absorbing "
         "infinity); (2) clock-jump fault: at a dump every pickled Time and the quotient column of the pickled heap is "
@@ -38,7 +42,40 @@ def plan(tier, master_seed):
         tasks.append({"engine": "clockjump", "index": 10 ** 6 + index,
                       "family": JUMP_FAMILIES[index % len(JUMP_FAMILIES)],
                       "rng_seed": derive_seed(master_seed, ID + "jump", index), "events": EVENTS[tier] // 2})
+    for index in range(TIME_BATCHES[tier]):
+        tasks.append({"engine": "timesim", "index": 2 * 10 ** 6 + index,
+                      "rng_seed": derive_seed(master_seed, ID + "time", index), "histories": TIME_HISTORIES[tier]})
     return tasks
+
+
+def execute_timesim(task):
+    summary = {"status": "ok", "violations": [], "probes": {}, "faults": {}, "distinct": [], "events": 0}
+    stats = {}
+    if "history" in task:
+        cases = [(task["history"]["pool"], task["history"]["ops"])]
+    else:
+        rng = random.Random(task["rng_seed"])
+        cases = [timesim.generate(random.Random(rng.getrandbits(48)), rng.randint(20, 200))
+                 for _ in range(task["histories"])]
+    nontrivial = 0
+    for pool, ops in cases:
+        before = stats.get("compare", 0)
+        try:
+            timesim.run_history(pool, ops, stats)
+        except timesim.Failure as failure:
+            summary["violations"].append({"property": ID, "oracle": failure.oracle, "step": failure.index,
+                                          "detail": dict(failure.detail, engine="timesim")})
+            summary["status"] = "violation"
+            summary["resolved_task"] = dict(task, history={"pool": pool, "ops": ops[:failure.index + 1]})
+            break
+        if stats.get("compare", 0) - before >= 5:
+            nontrivial += 1
+    summary["probes"] = {"timesim_" + k: v for k, v in stats.items()}
+    summary["nontrivial"] = nontrivial >= 1
+    summary["nontrivial_count"] = nontrivial
+    summary["distinct"] = ["t%d/%d" % (task.get("rng_seed", 0), i) for i in range(len(cases))]
+    summary["sample"] = {"pool": cases[0][0], "history_prefix": cases[0][1][:8]} if cases else None
+    return summary
 
 
 def shifted(entry, q):
@@ -50,6 +87,8 @@ def shifted(entry, q):
 
 
 def execute(task, package_dir):
+    if task.get("engine") == "timesim":
+        return execute_timesim(task)
     seams.install_time_seam()
     if task.get("engine") == "runsim":
         out = common.execute_runsim(task, package_dir, [ShadowClock], ID,
@@ -135,6 +174,25 @@ def execute(task, package_dir):
     finally:
         if out_dir:
             shutil.rmtree(out_dir, ignore_errors=True)
+
+
+def shrink_candidates(task, violation):
+    import json
+    history = task.get("history")
+    if not history:
+        from ..driver import default_shrink_candidates
+        for t in default_shrink_candidates(task, violation):
+            yield t
+        return
+    ops = history["ops"]
+    n = len(ops)
+    for chunks in (2, 4, 8, 16):
+        size = max(1, n // chunks)
+        for start in range(0, n - 1, size):
+            t = json.loads(json.dumps(task))
+            t["history"]["ops"] = ops[:start] + ops[start + size:]
+            if len(t["history"]["ops"]) < n:
+                yield t
 
 
 def distinct_nontrivial(summaries):
